@@ -41,7 +41,7 @@ def eval_sq_cases(lines, tag):
                     re.sub(r"^\((\d+),", r"(\1%nat,", re.sub(r"RLen (\d+)", r"RLen \1%nat", c)) for c in chunk))
         out = vlib.coq_eval(tag, text)
         for m in vlib.parse_coq_list(out, "M"):
-            bad.append(idx[s + int(m)])
+            bad.append(idx[s + int(re.sub(r'%\w+$', '', m.strip()))])
     return sorted(bad)
 
 
